@@ -410,6 +410,95 @@ func editRun(repo string, seed int64, ngen, capPerDoc, maxDocs int, out string) 
 			}
 		}
 	}
+	// value families: documents that differ in ONE leaf, every member of the family taken in turn as the
+	// original and every other member as the edit, so that two unusual values that collapse onto the same
+	// canonical text (not only a value and its neighbour) are confronted with each other
+	type family struct {
+		name   string
+		build  func(v any) map[string]any
+		path   string
+		values []any
+	}
+	ctl := []any{}
+	for c := 1; c < 0x20; c++ {
+		ctl = append(ctl, "A"+string(rune(c))+"B")
+	}
+	for _, x := range []string{"A\u00010B", "A\u00011B", "A\u0001FB", "A\u0001fB", "A0B", "AB", "A B", `A\u0010B`, `A\nB`, "A\u007fB", "A\u0080B", "A\u2028B"} {
+		ctl = append(ctl, x)
+	}
+	lats := []any{}
+	for _, x := range []string{"0.1", "1e-101", "1e-10", "1e-100", "1e-110", "1e-201", "1e-21", "1e-11", "1.5e-101", "1.5e-1", "1.5e-11", "1.5e-110",
+		"12.5", "12.05", "12.005", "1e-7", "1.0000001e-7", "1e-300", "1e-30", "1e-3", "89.99999999999999", "89.9999999999999"} {
+		lats = append(lats, json.Number(x))
+	}
+	fams := []family{
+		{name: "control-chars", path: "/content", values: ctl, build: func(v any) map[string]any {
+			return map[string]any{"$schema": "https://gobl.org/draft-0/note/message", "uuid": "0190d2c4-6e2e-7c0c-9d1e-0a1b2c3d4e60", "title": "t", "content": v}
+		}},
+		{name: "control-chars-key", path: "/meta/k", values: ctl, build: func(v any) map[string]any {
+			return map[string]any{"$schema": "https://gobl.org/draft-0/note/message", "uuid": "0190d2c4-6e2e-7c0c-9d1e-0a1b2c3d4e60", "content": "c", "meta": map[string]any{"k": v}}
+		}},
+		{name: "float-exponents", path: "/addresses/0/coords/lat", values: lats, build: func(v any) map[string]any {
+			return map[string]any{"$schema": "https://gobl.org/draft-0/org/party", "uuid": "0190d2c4-6e2e-7c0c-9d1e-0a1b2c3d4e61", "name": "P",
+				"addresses": []any{map[string]any{"locality": "L", "country": "ES", "coords": map[string]any{"lat": v, "lon": json.Number("1.5")}}}}
+		}},
+	}
+	for _, fm := range fams {
+		idx := make([]int, len(fm.values))
+		for i := range idx {
+			idx[i] = i
+		}
+		if capPerDoc > 0 {
+			// quick tier: a seeded third of the family as originals, all members as edits
+			r.Shuffle(len(idx), func(i, j int) { idx[i], idx[j] = idx[j], idx[i] })
+			idx = idx[:(len(idx)+2)/3]
+		}
+		for _, i := range idx {
+			b, _ := json.Marshal(fm.build(fm.values[i]))
+			in, err := pipeLoad(b)
+			if err != nil || in.Calculate() != nil || in.Validate() != nil || in.Head == nil || in.Head.Digest == nil {
+				continue
+			}
+			used++
+			origCanon, origDig := canonOf(in.Document), in.Head.Digest.String()
+			data, _ := json.Marshal(in)
+			for j := range fm.values {
+				if j == i {
+					continue
+				}
+				var m map[string]any
+				dec := json.NewDecoder(bytes.NewReader(data))
+				dec.UseNumber()
+				if dec.Decode(&m) != nil {
+					continue
+				}
+				// set the leaf in the serialised envelope's document
+				var cur any = m["doc"]
+				segs := strings.Split(strings.TrimPrefix(fm.path, "/"), "/")
+				for k, sg := range segs {
+					last := k == len(segs)-1
+					switch c := cur.(type) {
+					case map[string]any:
+						if last {
+							c[sg] = fm.values[j]
+						} else {
+							cur = c[sg]
+						}
+					case []any:
+						n := 0
+						fmt.Sscan(sg, &n)
+						if last {
+							c[n] = fm.values[j]
+						} else {
+							cur = c[n]
+						}
+					}
+				}
+				t, _ := json.Marshal(m)
+				editProbe(w, fmt.Sprintf("%s-%d", fm.name, i), "edit", "family-"+fm.name, fm.path, t, origCanon, origDig)
+			}
+		}
+	}
 	fmt.Printf("events=%d bases=%d\n", w.N, used)
 	return w.Close()
 }
